@@ -65,6 +65,8 @@ def rand_array(rng, sr, sym, ndim=None, chargemaps=None, duals=None, charge=None
         kept = [s for i, s in enumerate(secs) if i not in drop]
     else:
         kept = [s for s in secs if rng.random() < keep]
+        if not kept and secs and keep > 0:
+            kept = [rng.choice(secs)]      # an entirely empty array only when asked for (keep = 0)
     rng.shuffle(kept)
     blocks = {}
     for s in kept:
